@@ -159,4 +159,31 @@ theorem C04_recovers_from_single_losses (ilA zcA ilB zcB : Bool) :
     s.a.st = stEstablished ∧ s.b.st = stEstablished := by
   cases ilA <;> cases zcA <;> cases ilB <;> cases zcB <;> decide
 
+/-- **No handshake timer survives the handshake.** For every run (any interleaving of starts, deliveries of any packet ever
+sent, T1 expiries, delayed write-loop passes) and both endpoints: T1-init runs only in COOKIE-WAIT and T1-cookie only in
+COOKIE-ECHOED; in particular an ESTABLISHED endpoint has neither running — also when it was established directly from
+COOKIE-WAIT by the peer's COOKIE-ECHO (crossed INITs). A T1 timer left running would exhaust its retry budget minutes later
+and fail the "connect" of an association that is in use. The harness logs `isRunning()` of both timers after every step. -/
+theorem C04_established_no_t1 (ilA zcA ilB zcB : Bool) (ops : List Op) :
+    let s := (Sys.init ilA zcA ilB zcB).run ops
+    (∀ x, ((s.ep x).t1i = true → (s.ep x).st = stCookieWait) ∧ ((s.ep x).t1c = true → (s.ep x).st = stCookieEchoed)) ∧
+    (∀ x, (s.ep x).st = stEstablished → (s.ep x).t1i = false ∧ (s.ep x).t1c = false) := by
+  intro s
+  have h := run_tinv _ ops (init_tinv ilA zcA ilB zcB)
+  refine ⟨fun x => ep_tinv h x, fun x hx => ?_⟩
+  obtain ⟨h1, h2⟩ := ep_tinv h x
+  constructor
+  · cases ht : (s.ep x).t1i with
+    | false => rfl
+    | true => have := h1 ht; rw [hx] at this; exact absurd this (by decide)
+  · cases ht : (s.ep x).t1c with
+    | false => rfl
+    | true => have := h2 ht; rw [hx] at this; exact absurd this (by decide)
+
+-- non-vacuity (test): crossed INITs, B's INIT-ACK never reaches A: A is established directly from COOKIE-WAIT (T1-init running)
+-- by B's COOKIE-ECHO, and its T1-init is stopped
+example :
+    let s := (Sys.init true false true false).run [.start false, .start true, .deliver false 0, .deliver true 0, .deliver false 1, .deliver true 2]
+    (s.a.st, s.a.t1i, s.a.t1c, s.b.st, s.b.t1i, s.b.t1c) = (stEstablished, false, false, stCookieEchoed, false, true) := by decide
+
 end C04
